@@ -1257,6 +1257,21 @@ def m_slice_splitn(kind):
     return model
 
 
+def m_strip(kind):
+    """`s.strip_prefix(p)` / `s.strip_suffix(p)` on byte slices: Some(rest) when s starts / ends with p"""
+    def model(eng, st, fr, t, name, rname, args):
+        a, b_ = _bytes_of(eng, st, args[0]), _bytes_of(eng, st, args[1])
+        if a is None or b_ is None:
+            return NotImplemented
+        a, b_ = bytes(a), bytes(b_)
+        off = _off(eng, st, args[0])
+        if kind == "prefix":
+            return mk_option(_mkslice(a[len(b_):], None if off is None else off + len(b_))) if a.startswith(b_) else mk_option(None)
+        return mk_option(_mkslice(a[:len(a) - len(b_)], off)) if a.endswith(b_) else mk_option(None)
+    return model
+
+
+FOLD_MODELS.update({"core::slice::strip_prefix": m_strip("prefix"), "core::slice::strip_suffix": m_strip("suffix")})
 FOLD_MODELS.update({"core::slice::splitn": m_slice_splitn("splitn"), "core::slice::rsplitn": m_slice_splitn("rsplitn"),
                     "core::slice::rsplit": m_slice_splitn("rsplit"), "core::slice::split_inclusive": m_slice_splitn("split_inclusive")})
 
